@@ -30,8 +30,27 @@ def variants(rnd, base):
     return [base, base[::-1] if base[::-1] != base else base + "r", base + "\U0001f600"]
 
 
-def instantiation(seed):
+def file_pids(seed, scratch):
+    """Pids that are the absolute paths of EXISTING files, two of them with identical content
+    (an implementation that looks a pid up as a file instead of hashing its text aliases them)."""
+    import os
+    d = os.path.join(scratch, "pidfiles%d" % seed)
+    os.makedirs(d, exist_ok=True)
+    names = {"p1": "survey-2024.csv", "p2": "copy-of-survey.csv", "p3": "other.csv"}
+    out = {}
+    for p, n in names.items():
+        path = os.path.join(d, n)
+        with open(path, "wb") as f:
+            f.write(b"same bytes\n" if p != "p3" else b"different bytes\n")
+        out[p] = path
+    return out
+
+
+def instantiation(seed, scratch=None):
     rnd = random.Random(seed)
+    if scratch is not None and seed % 6 == 5:
+        ns = "https://ns.dataone.org/service/types/v2.0#SystemMetadata"
+        return file_pids(seed, scratch), {"fD": ns, "f2": "fmt/two", "f3": "fmt/three"}
     while True:
         base = rnd.choice(BASES)
         if rnd.random() < 0.3:
